@@ -164,7 +164,7 @@ def pool_items(idx, v, who="alice"):
 
 
 PLACEHOLDER_OPS = ["Get", "GetAttributes", "GetAttributeList", "Destroy", "Encrypt", "MAC", "Sign",
-                   "DeleteAttribute", "ModifyAttribute"]
+                   "DeleteAttribute", "ModifyAttribute", "Activate", "Revoke"]
 
 
 def placeholder_item(op, v):
@@ -176,6 +176,8 @@ def placeholder_item(op, v):
         return {"op": op, "params": {"alg": "HMAC_SHA256"}, "data": blk}
     if op == "Sign":
         return {"op": op, "params": {"alg": "RSA", "hash": "SHA_256", "pad": "PKCS1v15"}, "data": blk}
+    if op == "Revoke":
+        return {"op": op, "code": "KEY_COMPROMISE"}
     if op == "DeleteAttribute":
         if tuple(v) >= (2, 0):
             return {"op": op, "ref": {"name": "Name"}}
